@@ -55,7 +55,10 @@ Lemma checkin_failed_oo : forall f r fwc s x s', checkin_failed cf r fwc s = (x,
 Proof.
   unfold checkin_failed; intros.
   destruct (rec_invalidate cf r false s) as [y s1] eqn:E1. apply rec_invalidate_rl, (RecLevel_OpOn f r) in E1.
-  dm H; [|inv H; auto]. ot; [exact E1|]. eapply rec_checkin_oo; eauto.
+  dm H.
+  - ot; [exact E1|]. eapply rec_checkin_oo; eauto.
+  - destruct (rec_checkin cf r fwc s1) as [w s2] eqn:E2. apply (rec_checkin_oo f) in E2.
+    destruct w; inv H; (ot; [exact E1|exact E2]).
 Qed.
 
 Lemma finalize_oo : forall f r0 dbc r gcf twr fy s x s', finalize cf dbc r gcf twr fy s = (x, s') ->
@@ -66,7 +69,7 @@ Proof.
   - intros. apply RecLevel_OpOn; auto.
   - intros. oleaf.
   - intros r1 s1 x1 s2 Hr1 Hc. rewrite <- (Hr r1 Hr1). eapply rec_checkin_oo; eauto.
-  - intros f' s1 Hf'. rewrite (Hf f' Hf'). constructor; auto.
+  - intros s1. unfold clear_fairy. destruct fy as [f'|]; [|apply OpOn_refl]. rewrite (Hf f' eq_refl). constructor; auto.
     + intros g Hg. change (f_rec (set_f_rec (set_f_dbc s1 (upd (f_dbc s1) f None)) (upd (f_rec s1) f None)) g)
         with (upd (f_rec s1) f None g). apply upd_other; auto.
     + right. change (f_rec (set_f_rec (set_f_dbc s1 (upd (f_dbc s1) f None)) (upd (f_rec s1) f None)) f)
